@@ -50,7 +50,17 @@ pub fn build(cfg: &Cfg, r: &mut Rng) -> Result<World, String> {
             Err(_) => continue,
         }
     }
-    build_world_with(cfg, &WorldOpts { bsei_initial: initial(r, &us), stsei_initial: vec![], reward_is_dummy: true, ..Default::default() })
+    // last resorts: a bSei list that may repeat addresses (the legacy token as shipped adds them up), then - for a token
+    // that refuses repeats - the same list without them
+    let last = initial(r, &us);
+    match build_world_with(cfg, &WorldOpts { bsei_initial: last.clone(), stsei_initial: vec![], reward_is_dummy: true, ..Default::default() }) {
+        Ok(w) => Ok(w),
+        Err(_) => {
+            let mut seen = std::collections::BTreeSet::new();
+            let unique: Vec<Cw20Coin> = last.into_iter().filter(|c| seen.insert(c.address.to_lowercase())).collect();
+            build_world_with(cfg, &WorldOpts { bsei_initial: unique, stsei_initial: vec![], reward_is_dummy: true, ..Default::default() })
+        }
+    }
 }
 
 pub fn steer(r: &mut Rng, s: &Snap, cfg: &Cfg, _g: &mut GenState, _w: &World) -> Option<Op> {
